@@ -295,10 +295,14 @@ func perturb(t *rapid.T, cs *api.Case) {
 	case "door":
 		c.Door = rapid.SampledFrom([]uint8{0, 1, 4, 5, 6, 127, 128, 255}).Draw(t, "door")
 	case "dates":
+		// a missing date: the zero Date literal, or the zero instant in another representation
+		rep := rapid.SampledFrom([]string{"", "", "zero", "zero-local", "zero-unix"}).Draw(t, "zero.repr")
 		if rapid.Bool().Draw(t, "from.zero") {
 			c.From = spec.Civil{}
+			v.ExtremeDate[0] = rep
 		} else {
 			c.To = spec.Civil{}
+			v.ExtremeDate[1] = rep
 		}
 	case "segments":
 		switch rapid.IntRange(0, 2).Draw(t, "segments.kind") {
